@@ -256,7 +256,13 @@ def concrete_playback(src, target, harness, timeout_s, mem_gb, logf, want=None):
         # test; that cover's assignment is a complete input vector for the native run
         chosen = [t for t in tests if "inputs chosen" in t]
         return chosen[0] if chosen else None
+    allt = tests
     tests = [t for t in tests if "Check for `cover`" not in t]
+    if not tests:
+        # Kani de-duplicates generated tests by their input vector: when the failing check fails for the
+        # same assignment that satisfies a cover (typical when the failure does not depend on the symbolic
+        # data at all), only the cover's test is printed. The native replay decides whether it reproduces.
+        tests = [t for t in allt if "inputs chosen" in t] or allt
     if want:
         pref = [t for t in tests if any(w in t for w in want)]
         tests = pref or tests
